@@ -218,3 +218,51 @@ Theorem C02_model_tables_deliver_nx :
       length v = S k /\ last v (cr_name r) = cn_name t /\ NoDup v.
 Proof. exact id_tables_deliver_nx. Qed.
 Print Assumptions C02_model_tables_deliver_nx.
+
+(* Part: the same with the hypotheses that are left once transit, single attachment and distinct signal names are
+   theorems (TransitProofs.v): a decidable condition on the description's links (they join routers and interfaces), the
+   port counts fit the 32-bit index field, the source injects into a router.  Every flit carrying the identity of an
+   interface is delivered to it by the emitted tables over the emitted wiring, on either network, and traverses
+   |shortest path| - 1 routers, which no path undercuts. *)
+From FV Require Import TransitProofs TreeProofs PathProofs.
+Theorem C02_hw_delivered_nx_min :
+  forall (d : desc) (g : graph) (c : compiled) (ri : rinfo) (n : netlist) (t : cni) (id : Z) (nt : net),
+    net_ok d nt ->
+    build d = Ok g -> compile d g = Ok c -> gen_routing_info sp_nx c = Ok ri -> emit c ri = Ok n ->
+    d_algo d = ID -> In t (c_nis c) -> id_num (cn_id t) = Ok id ->
+    links_typedb g c = true -> degrees_fitb c = true ->
+    forall s0 p, In s0 (c_nis c) -> cn_name s0 <> cn_name t -> is_rtb c (snd (attach nt s0)) = true ->
+      sp_nx g (snd (attach nt s0)) (cn_name t) = Some p ->
+      let tr := send n nt (emit_ni d (ri_offset ri) s0) (HId id) in
+      t_out tr = Delivered (cn_name t) (HId id) /\ S (length (t_rts tr)) = length p /\
+      forall q, path_to_t (NxProofs.E g) (cn_name t) q (snd (attach nt s0)) -> (length p <= length q)%nat.
+Proof. exact hw_send_nx_min. Qed.
+Print Assumptions C02_hw_delivered_nx_min.
+
+(* transit itself: in every accepted ID-routed description whose links join routers and interfaces, the generator's
+   shortest path from every router to every interface exists and runs through routers only *)
+Theorem C02_transit_is_a_theorem :
+  forall (d : desc) (g : graph) (c : compiled) (ri : rinfo),
+    build d = Ok g -> compile d g = Ok c -> gen_routing_info sp_nx c = Ok ri -> d_algo d = ID ->
+    links_typedb g c = true -> transit_allb sp_nx c = true.
+Proof. intros d g c ri Hb Hc Hri Ha H. exact (transit_holds sp_nx (nxB g) d g c ri Hb Hc Hri Ha (contract_nx d g c Hb Hc) H). Qed.
+Print Assumptions C02_transit_is_a_theorem.
+
+(* Part: what the hardware model assumes about the router's table lookup, over the text of hw/floo_route_select.sv
+   (harness/facts_decode.py, regenerated on every run): in the IdTable branch an `addr_decode` instance looks the
+   flit's destination id up in the table passed to the router, over all its rules, without a default index, and its
+   result is the selected output (Hw.select, HId case). *)
+From FVGen Require Import DecodeFacts.
+Definition assoc_s (k : string) (l : list (string * string)) : option string :=
+  option_map snd (find (fun p => String.eqb (fst p) k) l).
+Theorem C02_rtl_table_lookup :
+  rtl_id_decode_module = "addr_decode" /\
+  assoc_s "addr_i" rtl_id_decode_ports = Some "channel_i.hdr.dst_id" /\
+  assoc_s "addr_map_i" rtl_id_decode_ports = Some "id_route_map_i" /\
+  assoc_s "NoRules" rtl_id_decode_params = Some "NumAddrRules" /\
+  assoc_s "NoIndices" rtl_id_decode_params = Some "NumRoutes" /\
+  assoc_s "en_default_idx_i" rtl_id_decode_ports = Some "'0" /\
+  (exists out, assoc_s "idx_o" rtl_id_decode_ports = Some out /\ In ("route_sel_id=" ++ out)%string rtl_id_branch_stmts) /\
+  In "channel_o=channel_i" rtl_id_branch_stmts.
+Proof. repeat split; try reflexivity; [exists "id_table_result"; split; [reflexivity|vm_compute; tauto]|vm_compute; tauto]. Qed.
+Print Assumptions C02_rtl_table_lookup.
